@@ -142,6 +142,14 @@ func (pc *virtualPacketConn) ReadFrom(p []byte) (int, net.Addr, error) {
 		err  error
 	}, 1)
 
+	// Check for a closed connection first: when both cases below are ready,
+	// select picks one at random.
+	select {
+	case <-pc.closeCh:
+		return 0, nil, net.ErrClosed
+	default:
+	}
+
 	select {
 	case pc.readCh <- readRequest{
 		buffer: p,
